@@ -124,17 +124,7 @@ func (m *Machine) obligation(kind, label string, c *Term, fr *Frame) {
 		}
 	}
 	m.res.Obligations = append(m.res.Obligations, ob)
-	if kind == "assert" && v != Unsat {
-		// continue under the assumption that the assertion held (find further failures)
-		if c.False() {
-			panic(pathEnd{kind: "done"})
-		}
-		fv, _ := m.sol.Check(tb, []*Term{c}, nil)
-		if fv == Unsat {
-			panic(pathEnd{kind: "done"})
-		}
-		m.addPC(c)
-	}
+	// the path continues WITHOUT assuming the assertion: later obligations are decided independently
 }
 
 var vpOnce sync.Once
